@@ -215,6 +215,19 @@ CLAIMED = {
          'D23 (template cache keyed by path) is an assumption of from_yaml.',
     technique='TLA+ scanner-vs-token refinement (TLC exhaustive), replay of every pair; denotational round-trip check through real YAML files',
     ref='6/C15'),
+
+ 'C02': dict(
+    text='spec/Backends.tla: the per-backend primitives (interpolation helpers of NumPy/JAX, Torch and Fortran; 0-/1-based element and '
+         'slice addressing; roll vs cshift) as implemented, each checked by TLC to equal the reference on the whole lattice, each '
+         'historic deviation shown to violate it; solver variants are the Solver.tla cases. Conformance: (a) Solver.tla cases (C03 / '
+         'C08 / C09 families) run through run(backend=torch|jax|fortran) in float32/float64 with in-place and returned vector field, '
+         'compared with the expected rows of layer M (not merely pairwise); (b) Jacobian.tla models over the documented function set '
+         'compiled per backend and compared with the evaluated trees; (c) index helpers on vector variables (variable / literal index, '
+         'read, range) per backend; (d) the input interpolation of every backend on knots, midpoints and outside the range.',
+    note='Fortran: vectorize=False and a limited number of compiled models (f2py ~6 s each); torch/heun and jax/ring-buffer requests must '
+         'raise (C20); D57 (loud) matched by class; julia/matlab not installed.',
+    technique='TLA+ primitive-refinement spec (TLC), replay of TLC-computed expectations through every installed backend',
+    ref='6/C02'),
 }
 
 NOT_YET = 'check not built yet in this round (planned in DESIGN.md section 6); not claimed'
